@@ -340,6 +340,11 @@ Proof.
     assert (Hin : In t L) by (apply HL; rewrite Hpc; reflexivity).
     destruct fail; [|destruct ap]; injection H as <-; simpl;
       (split; [apply mu_upd; auto; rewrite Hpc; simpl; lia | now apply holding_upd_keep]).
+  - (* EDelLost *)
+    destruct (pcs s t) as [|c0| | |old|nw o|oi ap|r|r|r] eqn:Hpc; try discriminate.
+    assert (Hin : In t L) by (apply HL; rewrite Hpc; reflexivity).
+    destruct ap; injection H as <-; simpl;
+      (split; [apply mu_upd; auto; rewrite Hpc; simpl; lia | now apply holding_upd_keep]).
   - (* EComplete *)
     destruct (pcs s t) as [|c0| | |old|nw o|oi ap|r|r|r] eqn:Hpc; try discriminate.
     assert (Hin : In t L) by (apply HL; rewrite Hpc; reflexivity).
@@ -519,8 +524,11 @@ Qed.
 Definition has_lost (p : pc) : bool :=
   match p with Completing RLost | Ret RLost | Done RLost => true | _ => false end.
 
+(* an index exchange that took effect although the client saw an error *)
+Definition resp_lost (e : event) : bool := match e with EPutLost _ | EDelLost _ => true | _ => false end.
+
 Lemma lost_step sg s e s' :
-  step sg s e = Some s' -> put_lost e = false ->
+  step sg s e = Some s' -> resp_lost e = false ->
   (forall t, has_lost (pcs s t) = false) -> forall t, has_lost (pcs s' t) = false.
 Proof.
   intros H L A x. destruct e; try discriminate; simpl in H.
@@ -535,7 +543,7 @@ Proof.
 Qed.
 
 Lemma lost_run sg tr : forall s s',
-  run sg s tr = Some s' -> forallb (fun e => negb (put_lost e)) tr = true ->
+  run sg s tr = Some s' -> forallb (fun e => negb (resp_lost e)) tr = true ->
   (forall t, has_lost (pcs s t) = false) -> forall t, has_lost (pcs s' t) = false.
 Proof.
   induction tr as [|e tr IH]; intros s s' H L A; simpl in *.
@@ -549,7 +557,7 @@ Qed.
 (* 1. a registry that answers truthfully (no lost response): a call that returned a plain
       error had NO effect - the index is the fold of exactly the calls that did not *)
 Lemma plain_error_no_effect sg r0 st0 tr s t r :
-  run sg (init r0 st0) tr = Some s -> forallb (fun e => negb (put_lost e)) tr = true ->
+  run sg (init r0 st0) tr = Some s -> forallb (fun e => negb (resp_lost e)) tr = true ->
   (pcs s t = Ret r \/ pcs s t = Done r) ->
   (In t (lin s) <-> seen r <> RErr).
 Proof.
